@@ -412,7 +412,7 @@ func nonTrivialCrash(lines, replies []string) bool {
 func init() {
 	register(&core.Typed[stCase]{
 		StreamName: "crash", Prop: "C10",
-		RuleText: "histories with 0..3 completed flushes and optionally a completed compaction, then one victim operation (client Flush / background flush write / compaction write / compaction swap-and-delete) snapshotted at every file-operation boundary; crash images = every snapshot, plus every byte prefix (all up to 4 KB, stratified beyond) of every file created by the victim, singly and in random combinations; each image is reopened by the real code with fresh templates after deleting LOCK, probed twice in every modality, forced through one more rotation + Flush, listed, probed, closed; compared with the model's recover on the image (file names + gzip cut class per file); a case is non-trivial when some image was taken after at least one FS step of the victim (k>0) and contains at least one intact segment; distinct = distinct request streams",
+		RuleText: "histories with 0..3 completed flushes and optionally a completed compaction, then one victim operation (client Flush / background flush write / compaction write / compaction swap-and-delete) snapshotted at every file-operation boundary; crash images = every snapshot, plus every byte prefix (all up to 4 KB, stratified beyond) of every file created by the victim, singly and in random combinations; each image is reopened by the real code with fresh templates after deleting LOCK, probed twice in every modality (metadata also through filter groups), forced through one more rotation + Flush, listed, probed, closed; compared with the model's recover on the image (file names + gzip cut class per file); a case is non-trivial when some image was taken after at least one FS step of the victim (k>0) and contains at least one intact segment; distinct = distinct request streams",
 		NCases: func(tier string) int {
 			if tier == "thorough" {
 				return 400
